@@ -344,6 +344,20 @@ pub fn run_c18(ctx: &Ctx) -> Report {
             rep.violate("conversion-slice", "a slice converts only if it is exactly 8 bytes long (and then to the same bytes)", serde_json::json!({"len": l}).to_string());
         }
         rep.case(format!("CDiscSlice {} {}", emit::blob(&s), r.emit(|v| emit::blob(v))), r.is_ok());
+        // the Borsh route (feature "borsh"): exactly 8 bytes, also from a reader that delivers one byte per call
+        let b1 = borsh::from_slice::<ArrayDiscriminator>(&s[..]).ok().map(|d| <[u8; 8]>::from(d).to_vec());
+        let b2 = crate::pod::borsh_untrickle::<ArrayDiscriminator>(&s[..]).map(|d| <[u8; 8]>::from(d).to_vec());
+        let want = if l == 8 { Some(s.to_vec()) } else { None };
+        let want_prefix = if l >= 8 { Some(s[..8].to_vec()) } else { None }; // a reader may hold more than one value
+        if b1 != want || b2 != want_prefix {
+            rep.violate("conversion-borsh", "Borsh decoding of a discriminator must take exactly its 8 bytes (and fail on fewer), whatever the reader's chunking", serde_json::json!({"len": l, "from_slice": format!("{:?}", b1), "from_reader": format!("{:?}", b2)}).to_string());
+        }
+        if l == 8 {
+            let d = ArrayDiscriminator::try_from(&s[..]).unwrap();
+            if borsh::to_vec(&d).ok() != Some(s.to_vec()) || crate::pod::borsh_trickle(&d) != Some(s.to_vec()) {
+                rep.violate("conversion-borsh", "Borsh encoding of a discriminator must be its 8 bytes", serde_json::json!({"len": l}).to_string());
+            }
+        }
     }
     rep
 }
